@@ -15,9 +15,9 @@ PROP = {
             "need escaping, typed values; map types json.Marshal rejects; ordered maps, keyed maps, structs, ranges, drops, "
             "pointers, times around the year 0 / 9999 limits) and on random value trees with random strings and floats, each with an oracle on the real result "
             "(the text parses back with encoding/json to the logical value of the receiver; identical for 4 insertion orders of "
-            "every map); date / time printing / ParseDate: every conversion character (a-z A-Z + %) on a universe of 239 instants (epoch, "
+            "every map); date / time printing / ParseDate: every conversion character (a-z A-Z + %) on a universe of 243 instants (epoch, "
             "negative instants, leap days, century and 400-year rules, year boundaries, 1999-12-31 23:59:59, 2038, the years -1 / 0 / 1 / "
-            "9999 / 10000, midnight and noon, every weekday and month, ISO-week corner years, |u| up to 2^62), conversion x flag "
+            "9999 / 10000, midnight and noon, every weekday and month, ISO-week corner years, the 12-hour clock, |u| up to 2^62 + 1), conversion x flag "
             "(none - _ 0 ^ # : :: :::) x width (none 1 3 6 12) x modifier (none E) on five instants, a fixed family of 232 format "
             "strings (regexp corner cases, widths around the model bound 1024 and fmt's NOVERB bound) and of receivers (nil, 91 strings: "
             "the five all-digit layouts with fields in and out of range, near misses, the other layouts; 1014 strings on how a value can "
@@ -35,14 +35,16 @@ PROP = {
         "are correctly rounded -- modelled on exact rationals and sampled by the numf/filter/conv streams on every run",
     ],
     "assumptions": [
-        "Liquid/Filters/Num.lean, Call.lean, Convert.lean, Sprint.lean describe filters/standard_filters.go, expressions/filters.go, "
+        "Liquid/Filters/Num.lean, Liquid/Call.lean, Liquid/Convert.lean, Liquid/Sprint.lean describe filters/standard_filters.go, expressions/filters.go, "
         "values/call.go, values/convert.go, fmt.Sprint and render.writeObject: checked by the numf, filter and conv streams on every run",
         "Liquid/Filters/Json.lean describes the filters json, inspect, type, i.e. encoding/json's Marshal (Go 1.23, escapeHTML on) and fmt's %T on "
         "the value universe, including the Go types the harness builds for structs (reflect.StructOf, fields F0, F1, ... without json tags) "
         "and drops (a struct with one unexported field): checked by the filter stream on every run (and by robust, render, determ on whole templates)",
         "json / inspect outside the model (counted as unmodelled): an empty []any at the top level (a nil slice prints null, an empty one [], and "
         "compact, map, uniq return nil slices; the value universe does not distinguish them), inspect of a value json.Marshal rejects (%#v); "
-        "type of structs, drops and nil pointers (Go type names that are not part of the value)",
+        "type of structs, drops and nil pointers (Go type names that are not part of the value); the complete list is the `unmodelled` answers of "
+        "Liquid/Filters/Json.lean (also: a map key that is neither a string nor an integer, a float that is not a value of its format, a time "
+        "outside the range of the calendar computation)",
         "outside the model (counted as unmodelled, not compared): results Go signs as -0, overflow to +-Inf, NaN (round with |places| > 308), "
         "float->int conversions outside int64, ParseFloat's inf/nan/hex/underscore spellings, pointers in fmt",
         "Liquid/Time.lean, Liquid/Filters/Date.lean and the time cases of Sprint.lean / Convert.lean describe time.Time values in UTC with "
@@ -59,8 +61,8 @@ PROP = {
 
 TEXT = {
     "text": "Theorems about the filter bodies on float64 arguments holding arbitrary rationals a, b (no bounds): plus/minus are the "
-            "exact sum/difference whenever that is a float64 (plus_spec, minus_spec) and its IEEE rounding otherwise (plus_rounds, "
-            "minus_rounds); times is the exact product whenever that is a float64 and not Go's -0 (times_spec; no rounding theorem "
+            "exact sum/difference whenever that is a float64 (plus_spec, minus_spec) and otherwise its IEEE rounding, whenever roundF64 "
+            "gives one, i.e. short of overflow (plus_rounds, minus_rounds); times is the exact product whenever that is a float64 and not Go's -0 (times_spec; no rounding theorem "
             "for times); divided_by with a non-zero integer divisor of any integer kind is the truncated quotient of the truncated "
             "receiver when that truncation fits int64 (divided_by_int, with the wrap of MinInt64 / -1; divided_by_int_exact), with "
             "a non-zero float divisor the exact quotient when that is a float64 and not -0 (divided_by_flt) or its non-zero IEEE "
@@ -80,7 +82,8 @@ TEXT = {
             "behaves as the float64 nearest to it (numeric_string_recv, not for a spelling of -0) and a string receiver that does "
             "not is a TypeError or, with too many arguments, the arity FilterError (non_numeric_err); a non-numeric string operand "
             "of plus/minus/times/modulo with a float receiver is a TypeError (non_numeric_operand_err), while ANY non-number divisor "
-            "of divided_by - also the string \"3\" - is the FilterError 'invalid divisor' (divided_by_non_number); a whole float "
+            "of divided_by - also the string \"3\" - makes the body return the error 'invalid divisor' (divided_by_non_number, about the body; "
+            "ApplyFilter wraps a body's error into a FilterError); a whole float "
             "below 10^21, whenever {{ x }} prints it, is printed as plain digits (whole_prints_int, whole_prints_no_point). Times "
             "(Proofs.DateFilter; a time binding is time.Unix(u, 0).UTC(), the statements are about that model): day number -> civil date "
             "-> day number is the identity on all integers and civil date -> day number -> civil date on every valid proleptic Gregorian "
@@ -92,9 +95,10 @@ TEXT = {
             "t | date: f is Strftime(f, t) (date_filter_eq) and t | date is t | date: '%a, %b %d, %y' (date_default_format); for an "
             "instant in the years 0..9999 '%Y-%m-%d' prints dddd-dd-dd whose digits spell year, month and day and which ParseDate reads as "
             "the midnight of that day (strftime_ymd_shape), '%Y-%m-%d %H:%M:%S' prints 19 bytes that ParseDate reads back as the instant "
-            "(strftime_dateTime_parse) and that {{ t }} prints before ' +0000' (writeObject_time_eq_strftime); a ten-byte string that "
+            "(strftime_dateTime_parse) and that {{ t }} prints before ' +0000' (writeObject_time_eq_strftime, years 0..9999 only: on negative "
+            "years time.Format and fmt differ); a ten-byte string that "
             "ParseDate accepts is printed back unchanged by '%Y-%m-%d' (parse_then_strftime_ymd); '%j' is the day of the year, 1..366 "
-            "(strftime_yday); '%s' is fmt's %02d of the unix time, equal to its decimal text outside 0..9 and read back by ParseInt "
+            "(strftime_yday); '%s' is fmt's %02d of the unix time, equal to its decimal text outside 0..9 and, for an instant inside int64, read back by ParseInt "
             "(strftime_unix); '%%' is '%' (strftime_percent). An "
             "independent big.Rat oracle checks exactness, required errors and plain printing on the real code for all universe pairs "
             "and random pipelines wherever operands, intermediates and result are exactly float64 (round: 0 <= p <= 22 only; no "
@@ -103,6 +107,9 @@ TEXT = {
     "note": NOTE + "Every exactness theorem carries a Representable hypothesis (the exact result is a float64), the integer results an "
             "int64-range hypothesis, and results Go signs -0 are excluded; round is characterised only for 0 <= p <= 22 with exact "
             "intermediates; times has no general rounding theorem; the end-to-end zero-divisor theorems fix a float receiver. "
+            "The date theorems are about the model's calendar: UTC, whole seconds, instants within +-2^62 s; ParseDate is modelled on five of "
+            "its 25 layouts (a string that may start another layout, and `now`, are unmodelled), strftime widths above 1024 are unmodelled, "
+            "and the shape / round-trip theorems for %Y-%m-%d and %Y-%m-%d %H:%M:%S hold for the years 0..9999 only. "
             "Defects found and repaired: modulo by zero printed NaN (D17), divided_by rejected uint/uint64 divisors (D14), whole "
             "results from 10^6 on were printed in exponent form such as 1.234567e+06 (D23, fmt %v switches at exponent 6, not 21).",
     "technique": "Lean 4 proof (exact rational arithmetic with an explicit float64 rounding function) + model/implementation "
